@@ -72,8 +72,20 @@ def do_add(world, rep, op):
         t = None
     else:
         raise ValueError(sp)
+    if m.frozen and world.focus == 'C19':
+        lo_f, hi_f = __import__('dst.oracles', fromlist=['x']).window(m, [t, e])
+        pre_f = obs.full(g, lo_f, hi_f)
     st, r = call(g.add_interaction, *args, **kw)
     out = classify(st, r)
+    if m.frozen and out != 'ok':
+        # a frozen graph may reject its own mutators (it must, once finding D23 is repaired):
+        # then nothing may have changed
+        if world.focus == 'C19':
+            d = obs.diff(pre_f, obs.full(g, lo_f, hi_f))
+            if d:
+                raise Violation('C19.frozen', 'state-changed:' + ','.join(d), {'op': op})
+        world.count('fault.F-FROZEN.add_interaction')
+        return {'out': out, 'fault': True, 'cls': 'frozen-reject', 'keys': [(u, v)]}
     if t is None:
         exp = 'NetworkXError'
     elif m.removal:
@@ -81,7 +93,7 @@ def do_add(world, rep, op):
     else:
         exp = out if out in ('ok', 'ValueError') else 'ok'   # acceptance observed (A.1)
     if out != exp:
-        mismatch(world, 'add', {'op': op, 'expected': exp, 'got': out, 'msg': str(r) if st != 'ok' else None})
+        mismatch(world, 'add',{'op': op, 'expected': exp, 'got': out, 'msg': str(r) if st != 'ok' else None})
     if out == 'ok':
         if m.frozen:
             if 'D23' not in world.open_guards and world.focus == 'C19':
@@ -160,8 +172,19 @@ def do_bulk(world, rep, op):
             args, kw = (g, nodes, t), ({} if e is None else {'e': e})
     if not m.removal:
         op = dict(op, _probe=copy.deepcopy(g))
+    if m.frozen and world.focus == 'C19':
+        lo_f, hi_f = __import__('dst.oracles', fromlist=['x']).window(m, [t, e])
+        pre_f = obs.full(g, lo_f, hi_f)
     st, r = call(fn, *args, **kw)
     out = classify(st, r)
+    if m.frozen and out not in ('ok', 'ValueError', 'SimSourceError') and t is not None:
+        # a frozen graph rejecting its bulk helpers (finding D23 repaired): nothing may change
+        if world.focus == 'C19':
+            d = obs.diff(pre_f, obs.full(g, lo_f, hi_f))
+            if d:
+                raise Violation('C19.frozen', 'state-changed:' + ','.join(d), {'op': {k: v for k, v in op.items() if k != '_probe'}})
+        world.count('fault.F-FROZEN.bulk')
+        return {'out': out, 'fault': True, 'cls': 'frozen-reject', 'keys': edges}
     # what had to happen: elements are applied in order up to the first rejected one.
     # removal mode: the model decides; accumulative mode: acceptance is *observed* (A.1) by
     # offering the same elements one by one to a scratch copy taken before the call.
